@@ -4,6 +4,7 @@ import (
 	"bytes"
 	"encoding/json"
 	"fmt"
+	"io"
 	"strings"
 	"testing"
 	"testing/iotest"
@@ -77,6 +78,20 @@ func c04Lex(def lexer.Definition, c *c04Case) lexRun {
 			l, r.err = def.Lex(c.Filename, iotest.DataErrReader(strings.NewReader(c.Input)))
 		case "onebyte":
 			l, r.err = def.Lex(c.Filename, iotest.OneByteReader(strings.NewReader(c.Input)))
+		case "partreader":
+			// a reader the caller has already read from: the input is what is left in it
+			rd := strings.NewReader("consumed é\n" + c.Input)
+			_, _ = io.CopyN(io.Discard, rd, int64(len("consumed é\n")))
+			l, r.err = def.Lex(c.Filename, rd)
+		case "secondlexer":
+			// another lexer of the same definition is created, and read from, before this one is drained
+			l, r.err = def.Lex(c.Filename, strings.NewReader(c.Input))
+			if r.err == nil {
+				if l2, err := def.Lex("other", strings.NewReader("zz 9 `raw`\n+ é")); err == nil {
+					_, _ = l2.Next()
+					defer func() { _, _ = l2.Next() }()
+				}
+			}
 		case "namedreader":
 			// a reader with a Name() of its own (like *os.File): the caller's filename is what positions carry
 			if c.Kind == "scanner" {
@@ -227,7 +242,7 @@ func TestC04(t *testing.T) {
 	runProp(t, "C04", c04Rule, func(t *rapid.T, r *vstat.Run) {
 		c := &c04Case{
 			Filename: rapid.SampledFrom([]string{"", "f", "dir/file.x", "é.txt"}).Draw(t, "filename"),
-			Entry:    rapid.SampledFrom([]string{"string", "reader", "bytes", "string", "reader", "bytes", "dataerr", "onebyte", "namedreader"}).Draw(t, "entry"),
+			Entry:    rapid.SampledFrom([]string{"string", "reader", "bytes", "string", "reader", "bytes", "dataerr", "onebyte", "namedreader", "partreader", "secondlexer"}).Draw(t, "entry"),
 		}
 		switch k := rapid.IntRange(0, 10).Draw(t, "kind"); {
 		case k == 10:
